@@ -121,10 +121,137 @@ def run(only=None):
     return n_points, n_reads, bad
 
 
+# ------------------------------------------------------------------ the dual: a write committed DURING a read
+def run_writes_during_reads():
+    """At the first statement of every transaction but the first of a READ request, a write (one of four toggles: a consumer's
+    allocations + project / user / type, an inventory, a provider's traits, a provider's name) is committed through the service;
+    the read's answer must equal the answer of the same read just before or just after that write.  Injection is at
+    transaction boundaries only (inside one transaction the database's isolation decides, which SQLite on one connection
+    cannot show).  -> (points, [problems]); a problem whose only stale member is `resource_provider_generation` is marked
+    stale_generation_only (recorded finding: the provider is loaded in a transaction of its own)."""
+    from harness.checks_conc import inv, cons
+    setup = [('rp_create', 39, 1, 1, None), ('inv_set', 39, 1, 0, [inv(0, 8), inv(2, 100)]),
+             ('rp_create', 39, 2, 2, 1), ('inv_set', 39, 2, 0, [inv(0, 8)]),
+             ('traits_set', 39, 1, 1, [0]), ('aggs_set', 39, 1, 2, [1]),
+             ('alloc_put', 39, cons(2, None, [(2, [(0, 1)])])),
+             ('alloc_put', 39, cons(3, None, [(1, [(0, 1), (2, 5)])]))]
+    app = inject.fresh(setup)
+    U = ops.uuid_of
+    C2 = U(2, ops.K_CONS)
+    state = {'n': 0}
+
+    def req(m, p, b=None, v='1.39'):
+        return app.request(m, p, b, version=v, headers=ADMIN)
+
+    def flip():
+        state['n'] += 1
+        return state['n'] % 2
+
+    def toggle_alloc():
+        k = flip()
+        g = req('GET', '/allocations/%s' % C2).json['consumer_generation']
+        r = req('PUT', '/allocations/%s' % C2, {'allocations': {U(1 if k else 2): {'resources': {'VCPU': 1 + k}}}, 'project_id': 'p%d' % k,
+                                               'user_id': 'u%d' % k, 'consumer_type': 'T%d' % k, 'consumer_generation': g})
+        assert r.status == 204, (r.status, r.body)
+
+    def toggle_inv():
+        k = flip()
+        g = req('GET', '/resource_providers/%s' % U(1)).json['generation']
+        r = req('PUT', '/resource_providers/%s/inventories/VCPU' % U(1), {'resource_provider_generation': g, 'total': 8 + 8 * k})
+        assert r.status == 200, (r.status, r.body)
+
+    def toggle_traits():
+        k = flip()
+        g = req('GET', '/resource_providers/%s' % U(1)).json['generation']
+        r = req('PUT', '/resource_providers/%s/traits' % U(1), {'resource_provider_generation': g,
+                                                               'traits': ['HW_CPU_X86_AVX'] if k else ['STORAGE_DISK_SSD']})
+        assert r.status == 200, (r.status, r.body)
+
+    def toggle_name():
+        k = flip()
+        r = req('PUT', '/resource_providers/%s' % U(2), {'name': 'nm%d' % k, 'parent_provider_uuid': U(1)})
+        assert r.status == 200, (r.status, r.body)
+
+    toggles = [toggle_alloc, toggle_inv, toggle_traits, toggle_name]
+    for t in toggles:      # both positions of every toggle exist before the reads start
+        t()
+        t()
+    reads = [('/allocations/%s' % C2, 39), ('/allocations/%s' % C2, 27), ('/allocations/%s' % C2, 11),
+             ('/resource_providers/%s/allocations' % U(1), 39), ('/resource_providers/%s/allocations' % U(2), 39),
+             ('/resource_providers/%s/usages' % U(1), 39), ('/resource_providers/%s/usages' % U(2), 39),
+             ('/resource_providers/%s/inventories' % U(1), 39), ('/resource_providers/%s/inventories/VCPU' % U(1), 39),
+             ('/resource_providers/%s/traits' % U(1), 39), ('/resource_providers/%s/aggregates' % U(1), 39),
+             ('/resource_providers/%s' % U(2), 39), ('/resource_providers?in_tree=%s' % U(1), 39),
+             ('/resource_providers?resources=VCPU:1&required=HW_CPU_X86_AVX', 39),
+             ('/usages?project_id=p0', 39), ('/usages?project_id=p1&user_id=u1', 39), ('/usages?project_id=p1&consumer_type=T1', 39),
+             ('/allocation_candidates?resources=VCPU:1', 39), ('/traits?associated=true', 39)]
+
+    def read(path, v):
+        r = req('GET', path, None, '1.%d' % v)
+        return r.status, r.json
+
+    def same(a, b):
+        return json.dumps(a, sort_keys=True) == json.dumps(b, sort_keys=True)
+
+    def drop_gen(x):
+        if isinstance(x, dict):
+            return {k: drop_gen(v) for k, v in x.items() if k != 'resource_provider_generation'}
+        if isinstance(x, (list, tuple)):
+            return [drop_gen(v) for v in x]
+        return x
+    points = 0
+    bad = []
+    try:
+        for path, v in reads:
+            impl.OBS.reset()
+            read(path, v)
+            first, idx = [], 0
+            for ti, tx in enumerate(impl.OBS.txns):
+                if ti > 0:
+                    first.append(idx)
+                idx += len(tx['stmts'])
+            for k in first:
+                for t in toggles:
+                    before = read(path, v)
+                    fired = []
+
+                    def on_stmt(i, st, params, k=k, t=t, fired=fired):
+                        if i == k and not fired:
+                            fired.append(1)
+                            hook, impl.OBS.on_stmt = impl.OBS.on_stmt, None
+                            try:
+                                t()
+                            finally:
+                                impl.OBS.on_stmt = hook
+                    impl.OBS.reset()
+                    impl.OBS.on_stmt = on_stmt
+                    try:
+                        mid = read(path, v)
+                    finally:
+                        impl.OBS.on_stmt = None
+                    after = read(path, v)
+                    points += 1
+                    if not same(mid, before) and not same(mid, after):
+                        bad.append({'path': path, 'version': v, 'statement': k, 'write': t.__name__, 'mid': mid, 'before': before,
+                                    'after': after,
+                                    'stale_generation_only': same(drop_gen(mid), drop_gen(after)) or same(drop_gen(mid), drop_gen(before))})
+    finally:
+        impl.OBS.on_stmt = None
+        app.close()
+    return points, bad
+
+
 if __name__ == '__main__':
     if len(sys.argv) > 1 and sys.argv[1] == '--json':
         n, r, bad = run()
-        json.dump({'points': n, 'reads': r, 'problems': bad}, sys.stdout)
+        n2, bad2 = run_writes_during_reads()
+        json.dump({'points': n, 'reads': r, 'problems': bad, 'read_points': n2, 'read_problems': bad2}, sys.stdout)
+        sys.exit(0)
+    if len(sys.argv) > 1 and sys.argv[1] == '--reads':
+        n2, bad2 = run_writes_during_reads()
+        for b in bad2[:10]:
+            print(json.dumps(b)[:900])
+        print('%d points, %d problems' % (n2, len(bad2)))
         sys.exit(0)
     n, r, bad = run(sys.argv[1] if len(sys.argv) > 1 else None)
     for b in bad[:10]:
